@@ -15,7 +15,7 @@ Chk(name, ok) == IF ok THEN {} ELSE {name}
 JU(j) == [asn4 |-> j.asn4, addpath |-> j.addpath, ibgp |-> j.ibgp, extnh |-> j.extnh, mpr4 |-> j.mpr4, origin |-> j.origin, path |-> j.path, as4 |-> j.as4, med |-> j.med,
           pref |-> j.pref, atomic |-> j.atomic, aggr |-> j.aggr, comm |-> j.comm, orig |-> j.orig, unkT |-> j.unkT, unkNT |-> j.unkNT,
           ext |-> j.ext, partial |-> j.partial, rev |-> j.rev, nlri |-> j.nlri, wd |-> j.wd, mpr |-> j.mpr, mprLL |-> j.mprLL,
-          mpu |-> j.mpu, fault |-> j.fault]
+          mpu |-> j.mpu, fault |-> <<j.fault[1], j.fault[2]>>]
 
 \* observed sets, brought to the shape of Outcome
 ObsAnn(o) == {<<<<x[1], x[2], x[3], x[4]>>, x[5]>> : x \in SetOf(o.announce)}
